@@ -71,12 +71,88 @@ type c15Witness struct {
 	Want     []string `json:"want"`
 }
 
+// c15Catalog is the catalogue for the exhaustive part: one selector, every
+// single-domain shape as a rule and as an exception, negations, and a domain
+// that is both permitted and restricted.
+var c15Catalog = func() (out []string) {
+	out = append(out, "##.a")
+	for _, d := range c15Domains {
+		out = append(out, d+"##.a", "~"+d+"##.a", d+"#@#.a")
+	}
+	out = append(out, "example.org,~sub.example.org##.a", "example.org,~example.org##.a", "example.*,~example.com##.a", "a.com,b.a.com##.a", "example.org,a.com#@#.a", "~example.org,example.com#@#.a")
+
+	return out
+}()
+
+func c15Pairs() (out [][]int) {
+	n := len(c15Catalog)
+	for i := 0; i < n; i++ {
+		out = append(out, []int{i})
+		for j := i + 1; j < n; j++ {
+			out = append(out, []int{i, j})
+		}
+	}
+
+	return out
+}
+
+func c15Triples() (out [][]int) {
+	n := len(c15Catalog)
+	for i := 0; i < n; i++ {
+		for j := i + 1; j < n; j++ {
+			for k := j + 1; k < n; k++ {
+				out = append(out, []int{i, j, k})
+			}
+		}
+	}
+
+	return out
+}
+
+const c15Batch = 8
+
+func c15ExhaustiveSets(t core.Tier) [][]int {
+	sets := c15Pairs()
+	if t == core.Thorough {
+		sets = append(sets, c15Triples()...)
+	}
+
+	return sets
+}
+
+var c15SetCache = map[core.Tier][][]int{}
+
 func c15Run(c *core.Ctx, idx int) {
+	sets, ok := c15SetCache[c.Env.Tier]
+	if !ok {
+		sets = c15ExhaustiveSets(c.Env.Tier)
+		c15SetCache[c.Env.Tier] = sets
+	}
+	ne := (len(sets) + c15Batch - 1) / c15Batch
+	if idx < ne {
+		for k := idx * c15Batch; k < (idx+1)*c15Batch && k < len(sets); k++ {
+			var list []string
+			for _, i := range sets[k] {
+				list = append(list, c15Catalog[i])
+			}
+			c15RunList(c, util.Shuffle(c.Rng, list))
+			c.Event("catalogue_sets", 1)
+		}
+
+		return
+	}
 	n := 1 + c.Rng.Intn(10)
 	var list []string
-	var parsed []*rules.CosmeticRule
 	for i := 0; i < n; i++ {
-		t := c15Rule(c)
+		list = append(list, c15Rule(c))
+	}
+	c15RunList(c, list)
+}
+
+func c15RunList(c *core.Ctx, texts []string) {
+	var list []string
+	var parsed []*rules.CosmeticRule
+	for _, t := range texts {
 		r, err := rules.NewCosmeticRule(t, 1)
 		if err != nil {
 			c.Inconclusive("rule-rejected-by-parser")
@@ -177,13 +253,15 @@ func init() {
 	core.Register(&core.Prop{
 		ID:    "C15",
 		Level: "exploration",
-		Rule: "per case a list of 1..10 element-hiding rules and exceptions (generic, one or many domains, negated domains, wildcard TLD, a domain both permitted and restricted, duplicated selectors) x 29 hostnames (listed domain, subdomain, deeper subdomain, sibling, label-boundary neighbour, unrelated) x all 8 flag combinations, through CosmeticEngine.Match and Engine.GetCosmeticResult; " +
+		Rule: "exhaustive part: every single rule and every pair (thorough: also every triple) of a 58-shape catalogue (one selector; every domain value as rule, negated rule and exception; permitted+restricted combinations) x 29 hostnames x 8 flag combinations; sampled part: per case a list of 1..10 element-hiding rules and exceptions (generic, one or many domains, negated domains, wildcard TLD, a domain both permitted and restricted, duplicated selectors) x 29 hostnames (listed domain, subdomain, deeper subdomain, sibling, label-boundary neighbour, unrelated) x all 8 flag combinations, through CosmeticEngine.Match and Engine.GetCosmeticResult; " +
 			"oracle = the reference of the statement computed with CosmeticRule.Match over all rules, compared per bucket as sets; non-trivial = (list, hostname) with at least one expected selector; distinct by (hostname, list)",
 		Assumptions: []string{
 			"CosmeticRule.Match is the definition of 'applies to the hostname' (its domain semantics are checked by C04 through the shared helper)",
 			"result buckets are compared as sets",
 		},
-		Cases: func(t core.Tier) int { return sizes[t] },
-		Run:   c15Run,
+		Cases: func(t core.Tier) int {
+			return (len(c15ExhaustiveSets(t))+c15Batch-1)/c15Batch + sizes[t]
+		},
+		Run: c15Run,
 	})
 }
